@@ -46,7 +46,7 @@ Clauses == <<
   <<"C05a", "C05", "st">>, <<"C05b", "C05", "st">>, <<"C05c", "C05", "tr">>,
   <<"C06a", "C06", "tr">>, <<"C06b", "C06", "tr">>, <<"C06c", "C06", "end">>,
   <<"C07a", "C07", "st">>, <<"C07b", "C07", "end">>, <<"C07c", "C07", "st">>,
-  <<"C07d", "C07", "st">>, <<"C07e", "C07", "end">>,
+  <<"C07d", "C07", "st">>, <<"C07e", "C07", "end">>, <<"C07f", "C07", "tr">>,
   <<"C08a", "C08", "end">>, <<"C08b", "C08", "end">>, <<"C08c", "C08", "end">>,
   <<"C09a", "C09", "end">>, <<"C09b", "C09", "end">>, <<"C09c", "C09", "end">>,
   <<"C09d", "C09", "end">>,
@@ -138,6 +138,7 @@ EvalTr(n, r, pre, post, isStart) ==
   CASE n = "C05c" -> C05c(cx, pre, post, call)
     [] n = "C06a" -> C06a(call, res, r.mis)
     [] n = "C06b" -> C06b(cx, call, res)
+    [] n = "C07f" -> IF r.mis THEN "na" ELSE C07f(cx, pre, post)
     [] n = "C10a" -> C10a(call, res)
     [] n = "C10b" -> C10b(call, res, post)
     [] n = "C13c" -> IF isStart \/ r.mis THEN "na" ELSE C13c(pre, post, call, res)
